@@ -138,10 +138,12 @@ CLAIMS = {
               "element, each with its parent, in order, with multiplicity), C16_unnest_elem (element only), C16_unnest_filtered (a condition on "
               "the element filters element rows and keeps the correlation), C16_unnest_where (ANY condition tree over the parent - comparisons, "
               "memberships, expressions, and / or / not, nested queries -: the parents are filtered, every surviving parent is unnested in full, "
-              "in order) and C16_unnest_where_filtered (a parent condition and an element condition together). Tie: generated flatten queries (all selections, conditions on "
+              "in order), C16_unnest_where_filtered (a parent condition and an element condition together) and C16_unnest_item_disjunction (an "
+              "item / attribute of the element selected under a disjunction over items of the element: one row per qualifying element, two "
+              "elements of one parent are two rows). Tie: generated flatten queries (all selections, conditions on "
               "element / parent / both / disjunction / membership) compared as exact row sequences with the model, cache off and on."),
         design='7/C16', technique='Coq proof (direct structural induction over parent domain and inner collection) + correspondence',
-        note=BASE_NOTE + " Conditions that relate the element to its parent, disjunctions over the element and membership of the element are covered by correspondence only; the value subset has one level of nesting (a tuple of ints as an element of a collection) and mappings (as collections: their keys)."),
+        note=BASE_NOTE + " Conditions that relate the element to its parent, other disjunctions over the element and membership of the element are covered by correspondence only; the value subset has one level of nesting (a tuple of ints as an element of a collection) and mappings (as collections: their keys)."),
     'C17': dict(
         text=("Machine-checked: C17_single (exactly one row carrying all inner elements in domain order and inner order with multiplicity, also "
               "for no parent / all-empty collections) and C17_membership (membership and non-membership of an outer variable select exactly the "
